@@ -52,7 +52,9 @@ JSON_DOCS = [b'{"pct":"100%","fmt":"%s %d"}', b'{"a":1}', b'{"b":[1,2,{"c":null}
 BAD_JSON = [b'{', b'{"a":}', b'', b'nul', b'{"a":1,}', b"{'a':1}", b'[1 2]']
 YAML_DOCS = [b"rate: 100%\nfmt: '%v'\n", b"/-/-/-/\n", b"a\n/-/-/-/\nb\n", b"a: 1\n", b"a: 1", b"list:\n  - x\n  - y\n", b"# comment\nk: v\n---\nk2: v2\n", b"text: |\n  ---\n  more\n",
              b"a: 1\n\n\n", b"[TestA - 1]\n", b"k: [1, 2]\n", b"---\na: b\n", b"s: '/-/-/-/'\n", b"a:\n  b:\n    c: d\n"]
-BAD_YAML = [b"a: [1, 2", b"a: b: c: d\n  x", b"\t- a\n\tb", b"key: 'unterminated"]
+BAD_YAML = [b"a: [1, 2", b"a: b: c: d\n  x", b"\t- a\n\tb", b"key: 'unterminated",
+            # well-formed but not decodable: aliases without an anchor
+            b"a: *missing\n", b"x: &a 1\ny: *b\n", b"a: 1\n---\nb: *nope\n"]
 
 
 def op_match_snap(h, test, values):
@@ -206,7 +208,7 @@ def gen_matchers(r, good, bad, fail):
         if f == "nulltype":
             # the path exists and holds JSON null: not a string, whatever ErrOnMissingPath says
             bm = {"kind": "type", "type": r.choice(["string", "float64", "bool"]), "paths": ["1.b"],
-                  "errOnMissing": r.choice([True, False])}
+                  "errOnMissing": r.choice([True, False]), "stmt": r.chance(1, 2)}
         elif f == "missing":
             bm = {"kind": r.choice(["any", "type", "custom"]), "paths": [r.choice(bad)], "type": "string"}
         elif f == "type":
@@ -237,7 +239,7 @@ def gen_matchers(r, good, bad, fail):
     if bm:
         ms.insert(r.below(len(ms) + 1), bm)
     elif r.chance(1, 4):
-        ms.append({"kind": r.choice(["any", "custom"]), "paths": [r.choice(bad)], "errOnMissing": False, "type": "string"})
+        ms.append({"kind": r.choice(["any", "custom"]), "paths": [r.choice(bad)], "errOnMissing": False, "type": "string", "stmt": r.chance(1, 2)})
     return ms
 
 
